@@ -7,6 +7,7 @@ after: every module must still import, every show()n reference must be the same 
 value) and f must now live in the destination file."""
 import json
 import os
+import re
 import shutil
 import tempfile
 
@@ -193,8 +194,15 @@ def classify(obj, rel):
     return "client:" + obj.get("clients", {}).get(rel, "other")
 
 
+def failure_class(desc):
+    """ImportError / NameError / AttributeError ... of a verdict text, or 'value' when a reference changed"""
+    m = re.search(r"no longer imports: (\w+)", desc or "")
+    return m.group(1) if m else "value"
+
+
 def signature(obj):
-    return "moveglobal:" + classify(obj, obj["module"])
+    # the structural shape of the client AND the way it is predicted to fail
+    return "moveglobal:" + classify(obj, obj["module"]) + ":" + obj.get("failure", "?")
 
 
 def replay(ctx, obj):
@@ -233,6 +241,7 @@ def run(ctx):
                 ctx.count("moveglobal:style:" + style)
             for rel, desc in sorted(bad.items()):
                 obj = minimal(proj, dest, rel)
+                obj["failure"] = failure_class(desc)
                 ctx.count("moveglobal_oracle_failures:" + classify(obj, rel))
                 ctx.violation(obj, "C05 MoveGlobal %s -> %s: module %s %s" % (proj["source"], dest, rel, desc))
             if len(ctx.samples) < 4 and not raised and proj["clients"]:
